@@ -60,6 +60,8 @@ let send_acts st segs =
 let gen_handoff st ~big =
   let dump = rnd_int st 5 = 0 in
   let nrdb = if big then rnd_pick st [ 33554432 - 1; 33554432 + 8193; 40000000; 8192 * 4096 ] else
+      (* dump mode: a fifth of the files are 6..7 MB - below the writer's buffer, so that the whole file depends on the final flush *)
+      if dump && rnd_int st 5 = 0 then 6000000 + rnd_int st 1000000 else
       match rnd_int st 4 with 0 -> 1 + rnd_int st 50 | 1 -> rnd_pick st interesting_sizes | 2 -> 8192 * (1 + rnd_int st 5) + rnd_int st 3 - 1 | _ -> 1 + rnd_int st 70000 in
   let ncmd = if big then rnd_pick st [ 1; 100000; 33554432 + 5 ] else match rnd_int st 4 with 0 -> 0 | 1 -> 1 + rnd_int st 30 | 2 -> rnd_pick st interesting_sizes | _ -> rnd_int st 50000 in
   let runid = rnd_runid st and start = rnd_offset st in
